@@ -99,8 +99,6 @@ def scanInfected (st : State) (inf : IRaster) : List Cell :=
 
 def nonneg (r : IRaster) : Bool := r.data.all (· ≥ 0)
 
-def isInt (q : Rat) : Bool := q.den == 1
-
 /-! ### handlers -/
 
 def errOr (model : String) (obs : List String) (what : String) : String :=
@@ -272,13 +270,15 @@ def handleQAct (st : State) (inp obs : List String) : State × String :=
             if inDomain && oesc != specEscaped inf st.qAreas st.cells then
               (st', s!"PROPFAIL C18 escape-iff expected={specEscaped inf st.qAreas st.cells}")
             else
+              -- every resolution (integer or not): the direction must be that of a pair (infected cell,
+              -- enabled side) whose EXACT distance is minimal, the distance its `lround`
               let nearestFail : Bool :=
-                inDomain && !oesc && !(presentCells inf st.cells).isEmpty && isInt st.ns && isInt st.ew &&
+                inDomain && !oesc && !(presentCells inf st.cells).isEmpty &&
                 decide (0 ≤ st.ns) && decide (0 ≤ st.ew) &&
                 (match od with
-                 | .val d => !nearestOK inf st.qAreas st.cells st.qDirs st.ns.num st.ew.num d odir
+                 | .val d => !nearestOK inf st.qAreas st.cells st.qDirs st.ns st.ew d odir
                  | _ => true)
-              if nearestFail then (st', "PROPFAIL C18 nearest reported (distance, direction) is not that of a nearest infected cell")
+              if nearestFail then (st', s!"PROPFAIL C18 nearest reported (distance, direction) = ({showDist od}, {odir.name}) is not (lround of the exact distance, side) of a nearest (infected cell, enabled side) pair")
               else if toString odir.code ≠ dcode then (st', "MISMATCH metric.q.act direction code")
               else if (⟨oesc, od, odir⟩ : EscapeInfo) ≠ mi then (st', s!"MISMATCH metric.q.act model={showInfo mi}")
               else (st', "ok")
